@@ -27,7 +27,7 @@ func TestMain(m *testing.M) {
 	log.SetOutput(io.Discard)
 	kit.Main(m, "C19", "exploration",
 		"request sequences over {get-session valid (2 partitions), get-session with empty id, encrypt (empty / non-empty data), decrypt genuine (a record produced earlier on this or another stream for the partition), decrypt foreign-partition, decrypt corrupt, decrypt with empty record, empty request (no oneof), end of stream}: "+
-			"EXHAUSTIVE up to length 4 (thorough 5) through an in-memory AppEncryption_SessionServer against a sidecar built with the real NewAppEncryption (memory metastore, static KMS), rapid sequences up to length 40 on 1-8 concurrent streams sharing one AppEncryption, "+
+			"EXHAUSTIVE up to length 4 (thorough 5) through an in-memory AppEncryption_SessionServer against a sidecar built with the real NewAppEncryption (memory metastore, static KMS), rapid sequences up to length 40 on 1-8 concurrent streams sharing one AppEncryption, 2-16 streams whose get-sessions hit a FRESHLY built NewAppEncryption in parallel (every record they are given must decrypt on a later stream of its partition and on no other), "+
 			"a second service built around a harness-owned SessionFactory for the SDK differential (records produced by the stream decrypt through an SDK session and vice versa), a sample through real gRPC over bufconn, and a native fuzz target (thorough). "+
 			"Oracle: a three-state protocol model (no session / get-session rejected / session open): exactly one Send per received request, in order; encrypt/decrypt before a successful get-session and a second get-session get error responses; with a session open encrypt returns a record that decrypts to the data, decrypt of a genuine record returns its payload, foreign / corrupt / empty records get error responses; Session returns nil at end of stream without panicking in every state. "+
 			"One evaluation = one sequence on one stream. Non-trivial = contains a rejected or repeated get-session or a decrypt of a non-genuine record followed by at least one more event; enumerated sequences are distinct by construction",
@@ -613,5 +613,93 @@ func FuzzStream(f *testing.F) {
 		if msg := runSequence(svc, p, seq, salt&0xffff); msg != "" {
 			t.Fatalf("C19 violated: %s\n  request sequence: %s, end-of-stream", msg, seqString(seq))
 		}
+	})
+}
+
+// TestFreshServerParallelStart: the very first get-sessions of a freshly built sidecar arrive in
+// parallel (the usual situation right after a deployment). Every stream gets a session of ITS
+// partition of ONE service: whatever any of them encrypted is decryptable by every later stream
+// of that partition, and by no stream of another partition.
+func TestFreshServerParallelStart(t *testing.T) {
+	kit.Check(t, 150, 6000, func(t *rapid.T) {
+		streams := rapid.IntRange(2, 16).Draw(t, "streams")
+		parts := make([]string, streams)
+		samePart := rapid.Bool().Draw(t, "samePartition")
+		for i := range parts {
+			parts[i] = partA
+			if !samePart && rapid.Bool().Draw(t, "partB") {
+				parts[i] = partB
+			}
+		}
+		opts := &server.Options{ServiceName: "svc", ProductID: "prod", Metastore: "memory", KMS: "static", ExpireAfter: 24 * time.Hour, CheckInterval: time.Hour}
+		if rapid.Bool().Draw(t, "sessionCache") {
+			opts.EnableSessionCaching, opts.SessionCacheMaxSize, opts.SessionCacheDuration = true, 4, time.Hour
+		}
+		app := server.NewAppEncryption(opts)
+		type res struct {
+			rec     *pb.DataRowRecord
+			payload []byte
+			err     string
+		}
+		out := make([]res, streams)
+		start := make(chan struct{})
+		var wg sync.WaitGroup
+		for i := 0; i < streams; i++ {
+			wg.Add(1)
+			go func(i int) {
+				defer wg.Done()
+				payload := []byte(fmt.Sprintf("parallel-start-%d", i))
+				st := &memStream{ctx: ctx, reqs: []*pb.SessionRequest{
+					{Request: &pb.SessionRequest_GetSession{GetSession: &pb.GetSession{PartitionId: parts[i]}}},
+					{Request: &pb.SessionRequest_Encrypt{Encrypt: &pb.Encrypt{Data: payload}}},
+				}}
+				<-start
+				if err := app.Session(st); err != nil {
+					out[i].err = "stream ended with " + err.Error()
+					return
+				}
+				if len(st.sent) != 2 || isErr(st.sent[0]) || st.sent[1].GetEncryptResponse() == nil {
+					out[i].err = fmt.Sprintf("valid get-session + encrypt answered %v", st.sent)
+					return
+				}
+				out[i] = res{rec: st.sent[1].GetEncryptResponse().GetDataRowRecord(), payload: payload}
+			}(i)
+		}
+		close(start)
+		wg.Wait()
+		bad := func(format string, args ...any) {
+			msg := fmt.Sprintf(format, args...)
+			kit.Rec.Violation(msg)
+			t.Fatalf("C19 violated [fresh NewAppEncryption, %d streams starting in parallel, partitions %v, session cache %v]: %s", streams, parts, opts.EnableSessionCaching, msg)
+		}
+		for i, o := range out {
+			if o.err != "" {
+				bad("stream %d: %s", i, o.err)
+			}
+		}
+		// later streams, one per partition, decrypt everything
+		for _, part := range []string{partA, partB} {
+			st := &memStream{ctx: ctx, reqs: []*pb.SessionRequest{{Request: &pb.SessionRequest_GetSession{GetSession: &pb.GetSession{PartitionId: part}}}}}
+			for _, o := range out {
+				st.reqs = append(st.reqs, &pb.SessionRequest{Request: &pb.SessionRequest_Decrypt{Decrypt: &pb.Decrypt{DataRowRecord: cloneDRR(o.rec)}}})
+			}
+			if err := app.Session(st); err != nil || len(st.sent) != streams+1 {
+				bad("later stream for %s: err=%v, %d responses to %d requests", part, err, len(st.sent), streams+1)
+			}
+			for i, o := range out {
+				r := st.sent[i+1]
+				if parts[i] == part {
+					if d := r.GetDecryptResponse(); d == nil || !bytes.Equal(d.GetData(), o.payload) {
+						bad("the record stream %d was given for partition %s cannot be decrypted by a later stream of that partition: %v", i, part, r)
+					}
+				} else if !isErr(r) {
+					bad("a stream of partition %s decrypted a record of partition %s", part, parts[i])
+				}
+			}
+		}
+		kit.Rec.Case(fmt.Sprintf("parallel-start|%d|%v|%v", streams, parts, opts.EnableSessionCaching), true, func() any {
+			return map[string]any{"fresh_server_parallel_start_streams": streams, "partitions": parts, "session_cache": opts.EnableSessionCaching}
+		})
+		kit.Rec.Label("fresh-server-parallel-start")
 	})
 }
